@@ -389,6 +389,25 @@ pub fn run(ctx: &Ctx) -> i32 {
             exprs.push(binary(1, &SpecE::Str("a".to_string()), l));
         }
     }
+    // patterns are byte strings taken as they are: characters that a "tidying" constructor might drop, trim, fold or normalise
+    // (byte order mark / zero-width characters first, last and in the middle; blanks, tabs and line ends at either end; NUL; upper
+    // case; a precomposed letter and its decomposed spelling; U+FFFD; the largest code point)
+    {
+        let special = [
+            "\u{feff}ab", "ab\u{feff}", "a\u{feff}b", "\u{feff}", "\u{feff}\u{feff}a", "\u{200b}a", "a\u{200b}", "\u{2060}ab", " a", "a ", " ", "\ta", "a\n", "a\r\n", "\r\na",
+            "\0a", "a\0", "\0", "A", "aB", "\u{e9}", "e\u{301}", "\u{301}e", "\u{fffd}", "\u{fffd}a", "\u{10ffff}", "\u{7f}a", "\u{80}", "\u{ad}b", "\"a\"", "a\\",
+        ];
+        for p in special.iter() {
+            for l in [SpecE::Str(p.to_string()), SpecE::Subseq(p.to_string())].iter() {
+                exprs.push(l.clone());
+                for k in 0..3 {
+                    exprs.push(unary(k, l));
+                }
+                exprs.push(binary(0, l, &SpecE::Str("ab".to_string())));
+                exprs.push(binary(1, &SpecE::Subseq("a".to_string()), l));
+            }
+        }
+    }
     let nexprs = exprs.len();
     let budget = ctx.tier.pick(1500, 12_000);
     let ev = ctx.par(|shard, n, ev| {
@@ -530,7 +549,7 @@ pub fn run(ctx: &Ctx) -> i32 {
         ev,
         Spec {
             level: "exploration",
-            rule: "one evaluation = one (expression, input string): the REAL fst::automaton value (Str, Subsequence, AlwaysMatch, explicit component DFAs with every sound hint assignment, composed through StartsWith/Union/Intersection/Complement/&A) is driven byte by byte and compared with a reference DFA built by textbook constructions: is_match == membership; can_match false only in states from which no accepting state is reachable; will_always_match true only in states from which only accepting states are reachable (both sets exact, by graph reachability, so they quantify over ALL continuations); a third brute-force membership definition must agree with the reference or the run aborts; expressions: all leaves (13 fixed + all <=2-state DFAs over 2 symbols x all sound hints + 3-state samples), all unary over leaves, fixed x all leaves binary both orders, DFA x DFA binary (thorough: complete; quick: 18000 sampled), all unary(unary(leaf)), sampled depth 2 and 3; inputs: all strings over the expression's symbol classes (each used byte + one representative of all other bytes) up to the budgeted length, the short ones replayed with 00/01/20/7f/80/c3/fe/ff in place of the representative, plus a shortest representative of every reference state extended by all strings <=2 (so every reference state is visited: ref-states-visited == ref-states-total); non-trivial = every evaluation; distinct = by construction",
+            rule: "one evaluation = one (expression, input string): the REAL fst::automaton value (Str, Subsequence, AlwaysMatch, explicit component DFAs with every sound hint assignment, composed through StartsWith/Union/Intersection/Complement/&A) is driven byte by byte and compared with a reference DFA built by textbook constructions: is_match == membership; can_match false only in states from which no accepting state is reachable; will_always_match true only in states from which only accepting states are reachable (both sets exact, by graph reachability, so they quantify over ALL continuations); a third brute-force membership definition must agree with the reference or the run aborts; expressions: all leaves (13 fixed + all <=2-state DFAs over 2 symbols x all sound hints + 3-state samples), all unary over leaves, fixed x all leaves binary both orders, DFA x DFA binary (thorough: complete; quick: 18000 sampled), all unary(unary(leaf)), sampled depth 2 and 3; Str and Subsequence over 31 patterns with characters a tidying constructor might drop, trim, fold or normalise (byte order mark and zero-width characters first/last/inside, blanks, tabs, CR LF, NUL, upper case, precomposed vs decomposed letters, U+FFFD, U+10FFFF), alone, under the unary combinators and in two binary combinations; inputs: all strings over the expression's symbol classes (each used byte + one representative of all other bytes) up to the budgeted length, the short ones replayed with 00/01/20/7f/80/c3/fe/ff in place of the representative, plus a shortest representative of every reference state extended by all strings <=2 (so every reference state is visited: ref-states-visited == ref-states-total); non-trivial = every evaluation; distinct = by construction",
             assumptions: vec!["component DFAs have sound hints by construction (the statement's premise)".into(), "bytes not used by any leaf behave identically in every leaf, so one representative is exact".into()],
             floors: floors_ref,
             exhaustive: Some(false),
